@@ -1282,6 +1282,16 @@ impl OpenOptions {
                 return Err(Error::new(ErrorKind::AlreadyExists, "file already exists"));
             }
 
+            // A directory of that name is neither opened as a file nor
+            // shadowed by a new file (EEXIST for O_EXCL, EISDIR otherwise).
+            if !file_exists && ctx.fs.dir_exists(&resolved_path) {
+                return Err(if self.create_new {
+                    Error::new(ErrorKind::AlreadyExists, "file already exists")
+                } else {
+                    Error::new(ErrorKind::IsADirectory, "is a directory")
+                });
+            }
+
             // Handle missing file
             if !file_exists {
                 if self.create || self.create_new {
